@@ -15,7 +15,7 @@ for _rank, _kind in ((1, "real"), (2, "real"), (1, "int"), (2, "int")):
     _shape = "n_face" if _rank == 1 else "n_lead, n_face"
     _DIFF = f"abs(d_var[{_lead}edge_faces[e, 0]] - d_var[{_lead}edge_faces[e, 1]])"
 
-    contract(_G + "_calculate_edge_face_difference", props=["C16"], variant=_var,
+    contract(_G + "_calculate_edge_face_difference", props=["C16", "C03"], variant=_var,
              sizes=["n_face", "n_edge", "n_lead"],
              params={"d_var": f"arr({_kind}, {_shape}, owner='caller')", "edge_faces": "arr(int, n_edge, 2, owner='caller', vspace='face')",
                      "n_edge": "n_edge"},
@@ -38,7 +38,7 @@ for _rank, _kind in ((1, "real"), (2, "real"), (1, "int"), (2, "int")):
 
     # gradient (not normalised): difference / centre-to-centre distance, zero on boundary edges; the distance table of the
     # grid is read only (it is the grid's cached array)
-    contract(_G + "_calculate_grad_on_edge_from_faces", props=["C16"], variant=_var,
+    contract(_G + "_calculate_grad_on_edge_from_faces", props=["C16", "C03"], variant=_var,
              sizes=["n_face", "n_edge", "n_lead"],
              params={"d_var": f"arr({_kind}, {_shape}, owner='caller')", "edge_faces": "arr(int, n_edge, 2, owner='caller', vspace='face')",
                      "n_edge": "n_edge", "edge_face_distances": "arr(real, n_edge, owner='caller')", "normalize": "False"},
